@@ -76,6 +76,22 @@ def verif_copy(tag):
             shutil.copytree(src, os.path.join(d, name), symlinks=True)
         elif os.path.exists(src):
             shutil.copy2(src, os.path.join(d, name))
+    # the copy must be the COMMITTED machinery: files a builder is editing right now are
+    # put back to HEAD, files not yet tracked are dropped (their stale .vo are rebuilt by make)
+    rc, out = sh(["git", "-C", VERIF, "status", "--porcelain", "--untracked-files=all"])
+    for line in out.splitlines():
+        st_, path = line[:2], line[3:].strip().strip('"')
+        tgt = os.path.join(d, path)
+        if not os.path.exists(tgt):
+            continue
+        if st_ == "??":
+            if path.endswith((".v", ".py")):
+                os.remove(tgt)
+        elif "M" in st_:
+            rc2, old = sh(["git", "-C", VERIF, "show", "HEAD:" + path])
+            if rc2 == 0:
+                with open(tgt, "w", encoding="utf-8") as f:
+                    f.write(old)
     return d
 
 
@@ -130,8 +146,48 @@ def keep(seed, prop, name, meta_extra):
     return d
 
 
+def benign(seed, prop, name, tier="quick"):
+    """A behaviour-preserving refactoring: tests and its own differential script pass; the check should
+    exit 0, or at most report `no-failing-input-found` (a broken translator / proof obligation)."""
+    res = {"seed": seed, "property": prop, "name": name}
+    wt = worktree("b")
+    try:
+        rc, out = sh(["git", "apply", os.path.join(seed, "patch.diff")], cwd=wt)
+        res["applies"] = rc == 0
+        if rc:
+            res["apply_output"] = out[-500:]
+            return res
+        env = dict(os.environ, PYTHONPATH=wt, PYTHONDONTWRITEBYTECODE="1", PYTHONHASHSEED="0")
+        rc, out = sh(["/venv/bin/python", "-m", "pytest", "-q", "-p", "no:cacheprovider", "-x"], cwd=wt, env=env)
+        res["tests_pass_with_change"] = rc == 0
+        if os.path.exists(os.path.join(seed, "equiv.py")):
+            rc, out = sh(["/venv/bin/python", os.path.join(seed, "equiv.py")], cwd=wt, env=env, timeout=1800)
+            res["equiv_exit"] = rc
+            res["equiv_tail"] = out[-300:]
+    finally:
+        drop(wt)
+    r = run(seed, prop, tier)
+    res["check"] = {k: r.get(k) for k in ("exit", "lines", "replay_kind", "failing_input", "failure_what",
+                                          "proof_obligations_broken", "correspondence_disagreements", "wall_s", "output_tail")}
+    viol = [l for l in r.get("lines", []) if l.startswith("VIOLATION")]
+    res["outcome"] = ("quiet" if r.get("exit") == 0 and not viol else
+                      "no-failing-input-found" if viol and all(l.rstrip().endswith("no-failing-input-found") for l in viol) else
+                      "false-alarm-with-input")
+    d = os.path.join(VERIF, "benign", name)
+    os.makedirs(d, exist_ok=True)
+    for f in ("patch.diff", "equiv.py", "note.txt"):
+        if os.path.exists(os.path.join(seed, f)):
+            shutil.copy2(os.path.join(seed, f), os.path.join(d, f))
+    with open(os.path.join(d, "result.json"), "w", encoding="utf-8") as f:
+        json.dump(res, f, ensure_ascii=False, indent=1)
+    return res
+
+
 if __name__ == "__main__":
     cmd = sys.argv[1]
+    if cmd == "benign":
+        print(json.dumps(benign(sys.argv[2], sys.argv[3], sys.argv[4]), ensure_ascii=False, indent=1))
+        sys.exit(0)
     if cmd == "confirm":
         print(json.dumps(confirm(sys.argv[2], sys.argv[3]), ensure_ascii=False, indent=1))
     elif cmd == "run":
